@@ -134,6 +134,17 @@ def classify(case):
         if arity_symptom and re.search(r"\b(UNION|EXCEPT|INTERSECT)\b", code):
             if ar[1] > ar[2] or (ar[1] < ar[2] and SORT_IN_SETOP_ARG.search(src)):
                 return "C07-N12-sort-column-widens-operand"
+        # the same widening where the sort comes out of a relation variable: the added column is spelled with the table name
+        # INSIDE that relation (the wrong name of C07-N1), `SELECT b.a, t.a FROM x AS b .. EXCEPT ALL ..`: the last item of
+        # the operand's SELECT list has a qualifier that is no FROM item of it
+        q_c = None
+        if kind == "scope" and diag[0] == 4 and diag[1] == 1:
+            q_c = (names[1] or "", names[2] or "")
+        m = re.search(r"no such column: ([A-Za-z_0-9]+)\.([A-Za-z_0-9]+)", msg) if kind == "sqlite" else None
+        if m:
+            q_c = (m.group(1), m.group(2))
+        if q_c and re.search(r"\b(UNION|EXCEPT|INTERSECT)\b", code) and re.search(r",\s*[\"`]?%s[\"`]?\.[\"`]?%s[\"`]? FROM\b" % (re.escape(q_c[0]), re.escape(q_c[1])), sql):
+            return "C07-N12-sort-column-widens-operand"
     # N13: sql.bigquery reads backslash escapes but its string literals are emitted with single backslashes (fix d2c1667
     # repaired mysql, clickhouse, snowflake, redshift): a literal ending in a backslash swallows its closing quote
     if d == "bigquery" and "\\" in src and "\\'" in sql and kind in ("parse", "tokens", "scope"):
